@@ -67,3 +67,20 @@ func (pd *PendingData) setLastSubmittedDataHeight(ctx context.Context, newLastSu
 func (pd *PendingData) init() error {
 	return pd.base.init()
 }
+
+// skipEmpty returns the highest height h >= from such that every committed block in
+// (from, h] carries no transactions: no data is ever published for those blocks.
+func (pd *PendingData) skipEmpty(ctx context.Context, from uint64) uint64 {
+	height, err := pd.base.store.Height(ctx)
+	if err != nil {
+		return from
+	}
+	for from < height {
+		data, err := pd.base.fetch(ctx, pd.base.store, from+1)
+		if err != nil || data == nil || len(data.Txs) != 0 {
+			break
+		}
+		from++
+	}
+	return from
+}
